@@ -219,9 +219,11 @@ def execute(scn, L):
         if ra.spec.get('block_size') and ra.spec['block_size'] < 96:
             out.probe('small_block')
 
-        if b'\r\n#' in intact or intact.startswith(b'#') and \
-           intact.split(b'\n', 1)[0].endswith(b'\r'):
+        if intact.split(b'\n', 1)[0].endswith(b'\r'):
             out.probe('crlf_headers')
+
+        if b'\n\n#' in intact or b'\n\r\n#' in intact:
+            out.probe('blank_lines_between_sections')
 
         if want_intact and 'encoding' not in want_intact[0]['options']:
             out.probe('no_main_encoding')
